@@ -43,6 +43,9 @@ struct ASpec {
     auto_focus: bool,
     /// 0 = none, 1 = ruleflow group "RF" (an activation of an inactive ruleflow group is not queued)
     ruleflow: u8,
+    /// 0 = none; k > 0: with_matched_fact(FactHandle k) (what the engines attach; the agenda
+    /// itself gives it no meaning, so the order must not depend on it)
+    handle: u8,
 }
 
 impl ASpec {
@@ -51,7 +54,7 @@ impl ASpec {
         self.rule % 2 == 0
     }
     fn to_json(&self) -> Json {
-        json!({"rule": format!("r{}", self.rule), "no_loop": self.no_loop(), "salience": self.salience, "agenda_group": AGENDA_GROUPS[self.agenda as usize], "activation_group": ACT_GROUPS[self.act_group as usize], "lock_on_active": self.lock, "auto_focus": self.auto_focus, "ruleflow_group": if self.ruleflow == 0 { Json::Null } else { json!("RF") }})
+        json!({"rule": format!("r{}", self.rule), "no_loop": self.no_loop(), "salience": self.salience, "agenda_group": AGENDA_GROUPS[self.agenda as usize], "activation_group": ACT_GROUPS[self.act_group as usize], "lock_on_active": self.lock, "auto_focus": self.auto_focus, "ruleflow_group": if self.ruleflow == 0 { Json::Null } else { json!("RF") }, "matched_fact_handle": if self.handle == 0 { Json::Null } else { json!(self.handle) }})
     }
     fn from_json(j: &Json) -> Option<ASpec> {
         Some(ASpec {
@@ -62,6 +65,7 @@ impl ASpec {
             lock: j.get("lock_on_active").and_then(|v| v.as_bool()).unwrap_or(false),
             auto_focus: j.get("auto_focus").and_then(|v| v.as_bool()).unwrap_or(false),
             ruleflow: if j.get("ruleflow_group").and_then(|v| v.as_str()).is_some() { 1 } else { 0 },
+            handle: j.get("matched_fact_handle").and_then(|v| v.as_u64()).unwrap_or(0) as u8,
         })
     }
 }
@@ -203,6 +207,9 @@ fn run_agenda(ops: &[AOp]) -> (Vec<Viol>, AObs) {
                         .with_condition_count(ents.len()); // our tag; unused by the Salience strategy
                     if spec.ruleflow != 0 {
                         act = act.with_ruleflow_group("RF".to_string());
+                    }
+                    if spec.handle != 0 {
+                        act = act.with_matched_fact(rust_rule_engine::rete::FactHandle::new(spec.handle as u64));
                     }
                     if spec.act_group != 0 {
                         act = act.with_activation_group(ACT_GROUPS[spec.act_group as usize].to_string());
@@ -500,7 +507,7 @@ fn exhaustive_agenda_alphabet() -> Vec<AOp> {
         for salience in [1, 2] {
             for agenda in 0..2u8 {
                 for act_group in 0..2u8 {
-                    a.push(AOp::Add(ASpec { rule, salience, agenda, act_group, lock: false, auto_focus: false, ruleflow: 0 }));
+                    a.push(AOp::Add(ASpec { rule, salience, agenda, act_group, lock: false, auto_focus: false, ruleflow: 0, handle: 0 }));
                 }
             }
         }
@@ -527,6 +534,7 @@ fn gen_agenda_ops(rng: &mut Rng) -> Vec<AOp> {
     let use_lock = rng.chance(1, 4);
     let use_auto = rng.chance(1, 4);
     let use_rf = rng.chance(1, 4);
+    let use_handles = rng.chance(1, 3);
     let mut ops = Vec::with_capacity(n);
     let spec = |rng: &mut Rng| ASpec {
         rule: rng.below(nrules as usize) as u8,
@@ -536,6 +544,7 @@ fn gen_agenda_ops(rng: &mut Rng) -> Vec<AOp> {
         lock: use_lock && rng.chance(1, 3),
         auto_focus: use_auto && rng.chance(1, 4),
         ruleflow: if use_rf && rng.chance(1, 3) { 1 } else { 0 },
+        handle: if use_handles && rng.chance(3, 4) { 1 + rng.below(9) as u8 } else { 0 },
     };
     for _ in 0..n {
         let r = rng.below(100);
